@@ -280,6 +280,7 @@ pub fn run(case: &Value) -> Vec<Value> {
                 json!({"forced_wait": r, "prompt": el < Duration::from_millis(700), "h3": reached,
                        "elapsed_ms": u64::try_from(el.as_millis()).unwrap_or(u64::MAX)})
             }
+            "forced_cancel" => forced_cancel(),
             "running" => json!({"num": pools[p.expect("p")].get_running_size()}),
             "size" => json!({"num": pools[p.expect("p")].size()}),
             "state" => json!({"state": match pools[p.expect("p")].state() {
@@ -300,4 +301,114 @@ pub fn run(case: &Value) -> Vec<Value> {
     }
     verif::set_virtual_clock(None);
     obs
+}
+
+
+#[derive(Debug)]
+struct DbgRec;
+impl Listener<(), Option<usize>> for DbgRec {
+    fn on_state_changed(&self, local: &CoroutineLocal, old: St, new: St) {
+        if std::env::var_os("OCV_DEBUG").is_some() {
+            eprintln!("worker {} {:?} -> {:?}", worker_id(local), old, new);
+        }
+    }
+}
+
+/// The schedule property C13 asks about (pause point in `try_cancel_task`): the scheduling thread
+/// switches from the cancel target (task A) to another task (B) between the lookup of A's thread
+/// and the signal. A dedicated scheduler thread runs a pool with A and B; this thread cancels A.
+fn forced_cancel() -> Value {
+    use std::sync::atomic::{AtomicBool, AtomicU64, Ordering};
+    use std::sync::Arc;
+    let a_running = Arc::new(AtomicBool::new(false));
+    let release_a = Arc::new(AtomicBool::new(false));
+    let a_done = Arc::new(AtomicBool::new(false));
+    let b_running = Arc::new(AtomicBool::new(false));
+    let release_b = Arc::new(AtomicBool::new(false));
+    let b_done = Arc::new(AtomicBool::new(false));
+    let a_id = Arc::new(AtomicU64::new(0));
+    let stop = Arc::new(AtomicBool::new(false));
+    let (ar, ra, ad, br, rb, bd, aid, st) = (
+        a_running.clone(), release_a.clone(), a_done.clone(), b_running.clone(), release_b.clone(), b_done.clone(),
+        a_id.clone(), stop.clone(),
+    );
+    let sched_thread = std::thread::spawn(move || {
+        let pool: &'static mut CoroutinePool<'static> =
+            Box::leak(Box::new(CoroutinePool::new("ocvcancel".to_string(), 128 * 1024, 0, 4, 0)));
+        pool.add_listener(DbgRec);
+        let spin = |flag: Arc<AtomicBool>| {
+            let t0 = std::time::Instant::now();
+            while !flag.load(Ordering::Acquire) && t0.elapsed() < Duration::from_secs(4) {
+                std::hint::spin_loop();
+            }
+        };
+        let (ar2, ra2, ad2) = (ar.clone(), ra.clone(), ad.clone());
+        let ida = pool
+            .submit_task(Some("cancel-target-A".to_string()), move |_| {
+                ar2.store(true, Ordering::Release);
+                spin(ra2);
+                // the target parks (as a hooked sleep would): the thread moves on to another coroutine
+                if let Some(s) = SchedulableSuspender::current() {
+                    s.delay(Duration::from_millis(400));
+                }
+                ad2.store(true, Ordering::Release);
+                Some(1)
+            }, None, None)
+            .expect("submit A");
+        aid.store(ida, Ordering::Release);
+        let (br2, rb2, bd2) = (br.clone(), rb.clone(), bd.clone());
+        let _ = pool
+            .submit_task(Some("bystander-B".to_string()), move |_| {
+                br2.store(true, Ordering::Release);
+                let t0 = std::time::Instant::now();
+                while !rb2.load(Ordering::Acquire) && t0.elapsed() < Duration::from_secs(4) {
+                    std::hint::spin_loop();
+                }
+                bd2.store(true, Ordering::Release);
+                Some(2)
+            }, None, None)
+            .expect("submit B");
+        let t0 = std::time::Instant::now();
+        while !st.load(Ordering::Acquire) && t0.elapsed() < Duration::from_secs(8) {
+            let _ = pool.try_timed_schedule_task(Duration::from_millis(5));
+        }
+    });
+    // wait until A is running on the scheduler thread
+    let t0 = std::time::Instant::now();
+    while !a_running.load(Ordering::Acquire) && t0.elapsed() < Duration::from_secs(4) {
+        std::thread::yield_now();
+    }
+    let (ra3, br3) = (release_a.clone(), b_running.clone());
+    let reached = Arc::new(AtomicBool::new(false));
+    let reached2 = reached.clone();
+    verif::set_observer(Some(Box::new(move |name, _a, _b| {
+        if name == "try_cancel_task:before_kill" {
+            reached2.store(true, Ordering::Release);
+            // the thread has been looked up; now let it move on from A to B before the signal is sent
+            ra3.store(true, Ordering::Release);
+            let t0 = std::time::Instant::now();
+            while !br3.load(Ordering::Acquire) && t0.elapsed() < Duration::from_secs(4) {
+                std::thread::yield_now();
+            }
+        }
+    })));
+    CoroutinePool::try_cancel_task(a_id.load(Ordering::Acquire));
+    verif::set_observer(None);
+    // give the signal time to be handled, then let B go on (if it still can)
+    std::thread::sleep(Duration::from_millis(100));
+    release_b.store(true, Ordering::Release);
+    // the target only parked for 400 ms: it should come back and finish
+    let t0 = std::time::Instant::now();
+    while !a_done.load(Ordering::Acquire) && t0.elapsed() < Duration::from_millis(2500) {
+        std::thread::sleep(Duration::from_millis(20));
+    }
+    std::thread::sleep(Duration::from_millis(100));
+    let out = json!({"forced_cancel": {
+        "h4": reached.load(Ordering::Acquire),
+        "target_finished": a_done.load(Ordering::Acquire),
+        "bystander_started": b_running.load(Ordering::Acquire),
+        "bystander_finished": b_done.load(Ordering::Acquire)}});
+    stop.store(true, Ordering::Release);
+    let _ = sched_thread.join();
+    out
 }
